@@ -303,7 +303,7 @@ func init() {
 	_ = token.ADD
 	register(&propDef{
 		id:          "C10",
-		explanation: "Decides three narrow structural necessary conditions of 'the invariants equal their definitions for every graph': READONLY (none of the eleven functions writes the graph it is given, so the value computed is that of the graph passed and later observers are unaffected), MAKECAP (an allocation with a constant non-zero length and a capacity written in terms of the order of the graph is within its capacity for every graph and vertex the function accepts, i.e. the function returns at all), SORTED (the component ConnectedComponent returns and every component ConnectedComponents appends has been through sort.Ints with no later write: 'sorted' in the statement). The values - distances, blocks, articulation vertices, cycle counts - and their invariance under relabelling are not decided.",
+		explanation: "Decides four narrow structural necessary conditions of 'the invariants equal their definitions for every graph': READONLY (none of the eleven functions writes the graph it is given, so the value computed is that of the graph passed and later observers are unaffected), MAKECAP (an allocation with a constant non-zero length and a capacity written in terms of the order of the graph is within its capacity for every graph and vertex the function accepts, i.e. the function returns at all), SORTED (the component ConnectedComponent returns and every component ConnectedComponents appends has been through sort.Ints with no later write: 'sorted' in the statement), WALK (a slice handed out by a graph observer, e.g. a neighbour list, is never walked by a loop that edits - through a call - the memory the slice points to: NumberOfCycles removes edges from its working copy while ranging over Neighbours, which is only correct if every implementation of Neighbours returns a snapshot; decided with the may-alias and per-call write sets of E-EFF). The values - distances, blocks, articulation vertices, cycle counts - and their invariance under relabelling are not decided.",
 		notDecided:  []string{"that Distance, Eccentricity, Diameter, Radius and Girth equal the shortest-path definitions", "that the components, blocks and articulation vertices are exactly right (BiconnectedComponents' blocks are sorted in place in a table: not covered by SORTED)", "the cycle and path counts", "invariance under relabelling and representation"},
 		assumptions: []string{"Graph.N() is non-negative and the same at every call on an unmodified graph", "a vertex argument is a vertex of the graph (0 <= v < N())"},
 		run: func(c *Ctx, tier string) []*RuleResult {
@@ -318,7 +318,11 @@ func init() {
 			so := &RuleResult{Rule: "SORTED", Doc: "returned / appended components have been through sort.Ints and not written since", MinInst: 2}
 			ruleSortedResult(c, so, "graph.ConnectedComponent")
 			ruleSortedResult(c, so, "graph.ConnectedComponents")
-			return []*RuleResult{ro, mc, so}
+			wk := &RuleResult{Rule: "WALK", Doc: "a slice handed out by an observer is not written (through a call) by the loop that walks it", MinInst: 5}
+			for _, n := range c10Funcs {
+				ruleWalk(c, wk, n)
+			}
+			return []*RuleResult{ro, mc, so, wk}
 		},
 		controls: func(ctl *Ctx) []*RuleResult {
 			mc := &RuleResult{Rule: "MAKECAP"}
@@ -328,7 +332,111 @@ func init() {
 			ruleSortedResult(ctl, so, "compctl.BadUnsortedComponent")
 			ruleSortedResult(ctl, so, "compctl.GoodSortedComponent")
 			ruleSortedResult(ctl, so, "compctl.GoodAllVertices")
-			return []*RuleResult{mc, so}
+			wk := &RuleResult{Rule: "WALK"}
+			ruleWalk(ctl, wk, "compctl.BadWalkShared")
+			ruleWalk(ctl, wk, "compctl.GoodWalkSnapshot")
+			return []*RuleResult{mc, so, wk}
 		},
 	})
+}
+
+// ruleWalk: the C10 algorithms walk neighbour lists (and other slices handed out by graph
+// observers) while they edit a working copy of the graph inside the same loop. That is only
+// correct when the list is a snapshot: if some implementation of the observer returns the graph's
+// own storage, the edit shifts elements under the running loop (neighbours skipped or visited
+// twice). Decided with E-EFF: for every element read of a slice that is the result of a call, no
+// call instruction lying on a cycle with that read may write the elements of the memory the slice
+// points to. Direct stores are not judged (in-place loops are an idiom); reads of parameters and
+// locally made slices are not judged either.
+func ruleWalk(c *Ctx, r *RuleResult, name string) {
+	fn := c.Fn(name)
+	fns := []*ssa.Function{fn}
+	fns = append(fns, fn.AnonFuncs...)
+	E := c.Eff()
+	for _, g := range fns {
+		f := E.fas[g]
+		if f == nil {
+			continue
+		}
+		reach := map[*ssa.BasicBlock]map[*ssa.BasicBlock]bool{}
+		reachFrom := func(b *ssa.BasicBlock) map[*ssa.BasicBlock]bool {
+			if m, ok := reach[b]; ok {
+				return m
+			}
+			m := reachableBlocks(b, nil)
+			// reachableBlocks marks the start itself; it is on a cycle only if some successor leads back
+			self := false
+			for _, s := range b.Succs {
+				if s == b || reachableBlocks(s, nil)[b] {
+					self = true
+				}
+			}
+			if !self {
+				delete(m, b)
+			}
+			reach[b] = m
+			return m
+		}
+		type writer struct {
+			call *ssa.Call
+			ls   locset
+		}
+		var writers []writer
+		for _, b := range g.Blocks {
+			for _, in := range b.Instrs {
+				if call, ok := in.(*ssa.Call); ok {
+					if _, isB := call.Call.Value.(*ssa.Builtin); isB {
+						continue
+					}
+					if ls := f.iw[in]; len(ls) > 0 {
+						writers = append(writers, writer{call, ls})
+					}
+				}
+			}
+		}
+		seen := map[ssa.Value]bool{}
+		for _, b := range g.Blocks {
+			for _, in := range b.Instrs {
+				ia, ok := in.(*ssa.IndexAddr)
+				if !ok {
+					continue
+				}
+				src, ok := ia.X.(*ssa.Call)
+				if !ok {
+					if ex, isEx := ia.X.(*ssa.Extract); isEx {
+						src, ok = ex.Tuple.(*ssa.Call)
+					}
+				}
+				if !ok || seen[ia.X] {
+					continue
+				}
+				if _, isSlice := ia.X.Type().Underlying().(*types.Slice); !isSlice {
+					continue
+				}
+				if _, isB := src.Call.Value.(*ssa.Builtin); isB {
+					continue
+				}
+				seen[ia.X] = true
+				r.inst("%s: walk over the result of %s", c.short(g), instrDesc(c, src))
+				elems := locset{}
+				for l := range f.P(ia.X) {
+					elems[loc{l.o, join(l.p, "[*]")}] = true
+				}
+				bad := false
+				for _, w := range writers {
+					if !(reachFrom(b)[w.call.Block()] && reachFrom(w.call.Block())[b]) {
+						continue
+					}
+					for l := range w.ls {
+						if elems[l] {
+							bad = true
+							r.find(c.short(g)+":"+instrDesc(c, src)+" walked while "+instrDesc(c, w.call)+" writes it", c.instrPos(w.call), "%s walks the slice returned by %s while, in the same loop, %s may write its elements: some implementation of the observer hands out the graph's own storage, so the edit moves elements under the running loop (entries skipped or visited twice)", c.short(g), instrDesc(c, src), instrDesc(c, w.call))
+							break
+						}
+					}
+				}
+				r.oblig(!bad)
+			}
+		}
+	}
 }
